@@ -116,6 +116,8 @@ class Session:
         return None
 
     def full_obs(self, sysobj, ta=25.0):
+        ta = 25.0  # twin comparisons always use the same ambient
+
         def solve():
             return O.canon_table(sysobj.solve(energy=True, ta=ta))
 
